@@ -8,6 +8,7 @@ from ..shapes import traversals, root, SELF
 
 PROP = "C20"
 EXPLANATION = (
+    "(WALK also: the map the names are looked up in is every entry of the name map turned round - one collect over a plain traversal, (value, key) per entry.) "
     "Static structural obligations: (TOTAL) the call cone of <DispatcherBuilder as Debug>::fmt inside the crate contains no panic "
     "construct - no unwrap/expect, panic!, indexing, bounds or overflow assert - other than `?` on fmt::Result; (WALK) write_par_seq "
     "traverses the id table full-forward on all three levels (stages, groups, members; leaving only through `?`) and emits exactly one "
